@@ -20,6 +20,11 @@ CONSTANTS
   LiveKind = 0
   MaxTicks = 0
   ResolveOnDerive = FALSE
+  NWriters = 1
+  MaxTrees = 1
+  ShareByWriter = FALSE
+  Ctxs = {}
+  CtxAwareLock = FALSE
   MaxH = 5
   MaxLogs = 1
   MaxGroups = 1
